@@ -314,7 +314,32 @@ def input_class(cfg):
     sat = [s for s in real if (s["a"] > 0 and size > 0) if s["k"] == "suffix"] + [s for s in real if s["k"] != "suffix" and s["a"] < size]
     if len(real) >= 2 and not sat:
         return "multi-none-satisfiable"
+    if len(real) >= 2 and _part_ends_below_buffer_multiple(real, size):
+        return "multi-part-ends-just-below-buffer-multiple"
     return ("single" if len(real) == 1 else "multi") + ("" if sat else "-unsatisfiable")
+
+
+BUFSIZE = 65536          # twisted.web.static.StaticProducer.bufferSize (read from the class when cases are generated)
+
+
+def _part_ends_below_buffer_multiple(real, size, window=230, overhead=105):
+    """Input feature (naming only): in the multipart body, some part ends fewer than ~`window` bytes before a multiple
+    of the producer's buffer size, estimating `overhead` bytes of delimiter + part header per part."""
+    total = 0
+    for s in real:
+        if s["k"] == "suffix":
+            lo, hi = max(0, size - s["a"]), size - 1
+            if s["a"] == 0 or size == 0:
+                continue
+        else:
+            lo, hi = s["a"], (size - 1 if s["k"] == "from" else min(s["b"], size - 1))
+            if lo >= size:
+                continue
+        total += overhead + hi - lo + 1
+        r = total % BUFSIZE          # the estimate may be a few bytes off per part either way
+        if BUFSIZE - r <= window or (r <= 40 and total >= BUFSIZE):
+            return True
+    return False
 
 
 def outcome_class(ev):
@@ -359,6 +384,59 @@ def random_case(rng):
     present = rng.random() < 0.97
     hdr = dict(present=present, unit=unit if present else "bytes", specs=specs if present else [])
     return dict(size=size, mod=mod, method=rng.choice(["GET", "GET", "HEAD"]), hdr=hdr)
+
+
+def buffer_boundary_cases(bufsize, step_a, step):
+    """Multi-range requests on files around and above the producer's buffer size whose parts end close to a multiple of
+    it (the multipart delimiter + part header is ~100 bytes; d sweeps the distance of a part's end below the multiple).
+    Shapes: A two parts; B one satisfiable part + unsatisfiable one (only the closing delimiter follows); C three parts,
+    the second ends near the multiple; D the first part ends near the *second* multiple; E whole-buffer-sized single ranges."""
+    def case(size, specs, method="GET", mod=251):
+        return dict(size=size, mod=mod, method=method,
+                    hdr=dict(present=True, unit="bytes", specs=[dict(k=k, a=a, b=b) for k, a, b in specs]))
+    big = bufsize + 500
+    for d in range(0, 330, step_a):
+        yield case(big, [("ab", 0, bufsize - d - 1), ("ab", 0, 10)])
+    for d in range(0, 330, step):
+        yield case(big, [("ab", 0, bufsize - d - 1), ("from", big + 5, 0)])
+        yield case(big, [("ab", 3, 12), ("ab", 100, 100 + bufsize - 120 - d - 1), ("suffix", 6, 0)], mod=241)
+        yield case(2 * bufsize + 500, [("ab", 0, 2 * bufsize - 90 - d - 1), ("ab", 7, 9)], mod=239)
+        yield case(bufsize - d, [("ab", 0, bufsize - d - 1), ("ab", 1, 1)])                 # the whole file, just below the buffer size
+    for size in (bufsize - 1, bufsize, bufsize + 1, 2 * bufsize, 2 * bufsize + 1):
+        for specs in ([("from", 0, 0)], [("ab", 1, size - 2)], [("suffix", bufsize, 0)], [("ab", 0, bufsize - 1), ("from", bufsize, 0)],
+                      [("from", 1, 0), ("ab", 0, 0)]):
+            for method in ("GET", "HEAD"):
+                yield case(size, specs, method)
+
+
+def random_boundary_case(rng, bufsize):
+    """random multi-range request with 2-5 parts; one part is placed to end within 0..300 bytes below a buffer multiple"""
+    k = rng.choice([1, 1, 2, 3])
+    size = k * bufsize + rng.choice([0, 1, 300, 500, 5000]) + rng.randint(0, 400)
+    nparts = rng.randint(2, 5)
+    target = rng.randrange(nparts)
+    specs = []
+    total = 0
+    for i in range(nparts):
+        if i == target:
+            n = k * bufsize - rng.randint(0, 300) - total - 105
+            if n < 1:
+                n = rng.randint(1, 50)
+        else:
+            n = rng.choice([1, 2, 11, 100, rng.randint(1, 3000)])
+        n = min(n, size)
+        a = rng.randint(0, size - n)
+        total += n + 105
+        r = rng.random()
+        if a + n == size and r < 0.3:
+            specs.append(dict(k="from", a=a, b=0))
+        elif a + n == size and r < 0.6:
+            specs.append(dict(k="suffix", a=n, b=0))
+        else:
+            specs.append(dict(k="ab", a=a, b=a + n - 1))
+        if rng.random() < 0.1:
+            specs.append(dict(k="from", a=size + rng.randint(0, 9), b=0))      # an unsatisfiable one in between
+    return dict(size=size, mod=rng.choice([251, 241, 239]), method="GET", hdr=dict(present=True, unit="bytes", specs=specs))
 
 
 def mutate(t, rng):
@@ -420,6 +498,15 @@ def run(ctx):
     for _ in range(nrand):
         traces.append(run_case(random_case(ctx.rng), ctx.work, rng=ctx.rng))
     ctx.extra["random_larger_cases"] = nrand
+    # files around / above the pull producers' buffer size, parts ending near its multiples
+    from twisted.web import static
+    bufsize = int(static.StaticProducer.bufferSize)
+    nb = len(traces)
+    for c in buffer_boundary_cases(bufsize, 1, ctx.pick(5, 1)):
+        traces.append(run_case(c, ctx.work))
+    for _ in range(ctx.pick(400, 20000)):
+        traces.append(run_case(random_boundary_case(ctx.rng, bufsize), ctx.work, rng=ctx.rng))
+    ctx.extra["buffer_boundary_cases"] = len(traces) - nb
     for t in traces:
         ctx.note_trace(t, nontrivial=t["cfg"]["hdr"]["present"])
     ctx.log("recorded %d real request/response pairs" % len(traces))
